@@ -7,6 +7,11 @@ CONFIG = {
                 "an administrator and writes never; the credential cache is transparent (Authenticate == cache-less check against current metadata), so old passwords, dropped users and "
                 "revoked grants stop working once the snapshot is installed, also when the swap interleaves with Authenticate (small-step model, every schedule). The model is diffed "
                 "against the real QueryAuthorizer, WriteAuthorizer, meta.Client (driven by its own pollForUpdates loop from a fake meta server) and httpd.Handler on every run. "
+                "SHOW family (FIELD KEYS, SERIES, TAG KEYS, TAG VALUES, MEASUREMENTS incl. ON *.*, and the five CARDINALITY forms, any ON clause and source list): the privileges checked "
+                "and the databases really read are both modelled (rewrite into SELECT over the sources, default-database normalisation, executors); theorem: every database an authorised "
+                "SHOW statement reads is one the admitted user may READ (all users, statements, defaults, histories); refuted for the pinned rule by four witnesses replayed on the real "
+                "handler + coordinator.StatementExecutor + tsdb store (two defects repaired by fix: commits); each run drives such statements end to end and compares the databases whose "
+                "shards/indexes were touched (wrapped TSDBStore/shard mapper) or whose names appear in the answer with the model and with the grants. "
                 "Known finding: statements following the bootstrap CREATE USER ... WITH ALL PRIVILEGES run un-authenticated (strict reading refuted, witness replayed).",
         "note": "Trusts Coq kernel, the harness and its canonicalisers, influxql.RequiredPrivileges (consumed, not verified), the JWT library and bcrypt (abstracted: a hash verifies exactly the password it was made from).",
         "technique": "Coq proof (invariants over histories and schedules) on a Gallina model of authenticate middleware / AuthorizeQuery / AuthorizeWrite / Client.Authenticate+cache, "
@@ -14,18 +19,20 @@ CONFIG = {
     },
     "harness": "h_c16",
     "level": "proof",
-    "extra_proof_files": ["Link"],
+    "extra_proof_files": ["Link", "Reads", "ReadsProofs"],
     "n": {"quick": 320, "thorough": 8000},
     "shard": 60,
     "rule": "designed cases first (every statement kind the parser produces x a 6-user grant lattice x default db; bootstrap requests alone and with trailing statements x carriers; "
             "write-authoriser lattice; every carrier incl. 9 defective JWT classes x right/wrong password x shared secret set/unset; password change / drop / re-create histories; "
             "one metadata swap landing inside Authenticate), then seeded generation: HTTP request sequences (1-3 requests on one node, cache carried over) over random user tables "
             "(0-4 users, admin/no-admin shapes, grants 0..3 on 4 databases), single and multi-statement queries from 78 templates (+ malformed), GET/POST, /write and /api/v2/write; "
-            "SHOW DATABASES / SHOW CONTINUOUS QUERIES through the real coordinator.StatementExecutor (visible names); requests MIXING privileges that name a database with privileges that fall back to the request default, in every order (designed grid of 13 explicit x 13 default statement forms, both orders and sandwiches, multi-source/subquery/INTO selects; generated with the default set to a database the user lacks), directly and over HTTP; sessions on one node (tables installed, requests with the same credentials before and after, GRANT/REVOKE/GRANT ALL PRIVILEGES/REVOKE ALL PRIVILEGES/SET PASSWORD/DROP USER sent by an administrator and executed by the REAL coordinator.StatementExecutor on a meta.Data-backed MetaClient: designed = every held {none,0,1,2,3} x {GRANT,REVOKE} x {READ,WRITE,ALL}, admin flag set/unset, password change, removal, refused/failed statements; generated sessions); the user VALUE returned by every Authenticate (grants + admin flag) compared with the current metadata; direct AuthorizeQuery/AuthorizeWrite calls incl. users not in the table and grants keyed by the empty name; cache histories of data.go operations, snapshots and authentications with current/old/foreign passwords. "
+            "SHOW DATABASES / SHOW CONTINUOUS QUERIES through the real coordinator.StatementExecutor (visible names); requests MIXING privileges that name a database with privileges that fall back to the request default, in every order (designed grid of 13 explicit x 13 default statement forms, both orders and sandwiches, multi-source/subquery/INTO selects; generated with the default set to a database the user lacks), directly and over HTTP; sessions on one node (tables installed, requests with the same credentials before and after, GRANT/REVOKE/GRANT ALL PRIVILEGES/REVOKE ALL PRIVILEGES/SET PASSWORD/DROP USER sent by an administrator and executed by the REAL coordinator.StatementExecutor on a meta.Data-backed MetaClient: designed = every held {none,0,1,2,3} x {GRANT,REVOKE} x {READ,WRITE,ALL}, admin flag set/unset, password change, removal, refused/failed statements; generated sessions); the user VALUE returned by every Authenticate (grants + admin flag) compared with the current metadata; direct AuthorizeQuery/AuthorizeWrite calls incl. users not in the table and grants keyed by the empty name; cache histories of data.go operations, snapshots and authentications with current/old/foreign passwords; "
+            "dbread: ONE SHOW-family statement per request through the real handler (auth on), real query.Executor and real coordinator.StatementExecutor over a real tsi1 tsdb.Store with one shard per database (4 databases, names unique per database): designed = 19 statement forms x ON {none, db0, db1} x sources {none, unqualified, db1, db0, mixed, two foreign} x default {db0, none} for a reader of db0, ON *.* / ON * x default x {reader, admin, no credentials}, missing databases; generated = random user tables, credentials, forms, ON clauses and 0-3 sources. "
             "distinct = distinct replayable description; non-trivial = something executed or was refused with 403 (req), non-empty table or query (authz), "
-            "at least one successful authentication and two snapshots (hist), swap landed inside the call (race)",
+            "at least one successful authentication and two snapshots (hist), swap landed inside the call (race), status 200 or 403 (dbread)",
     "trusted_base": [
-        "C16: influxql RequiredPrivileges()/parser are consumed, not verified: the harness asks the real library for each concrete statement and hands the result to both sides",
+        "C16: influxql RequiredPrivileges()/parser are consumed, not verified, for statements outside the SHOW family: the harness asks the real code (meta.statementPrivileges = influxql RequiredPrivileges + showReadPrivileges, through verif_export_c16_privs.go) for each concrete statement and hands the list to both sides; for the SHOW family the list is MODELLED (Reads.v lib_privs/show_read_privs) and compared with the real one on every dbread case",
+        "C16: dbread attributes a read to a database through the wrapped coordinator.TSDBStore (MeasurementNames, TagKeys, TagValues, cardinalities, sketches, ShardGroup as used by LocalShardMapper) and through names that exist in one database only appearing in the answer; the cluster's remote shard mapper (ClusterShardMapper/MetaExecutor) is replaced by coordinator.LocalShardMapper; the abstraction of the parsed SHOW statement (kind, ON, wildcard, EXACT, sources' databases) is read off the influxql AST by the harness",
         "C16: bcrypt abstracted as 'a stored hash verifies exactly the password it was generated from' (hash ids assigned by the harness); SHA-256 salted hash abstracted as an injective function of the password",
         "C16: JWT validation (dgrijalva/jwt-go) is a black box: the model accepts exactly token class 0 (HMAC, shared secret, future numeric exp, string username); 9 defective classes are exercised",
         "C16: statements reaching the executor are counted by a recording StatementExecutor; 'reach' (how far the executor loop goes once authorised) is measured on the same handler with auth disabled",
@@ -35,8 +42,10 @@ CONFIG = {
     ],
     "modelled": "services/meta: UserInfo.AuthorizeDatabase, Data.user/CreateUser/DropUser/UpdateUser/SetPrivilege/SetAdminPrivilege/CreateDatabase/DropDatabase (user part), "
                 "QueryAuthorizer.AuthorizeQuery, WriteAuthorizer.AuthorizeWrite, Client.Authenticate/updateAuthCache/metadata swap; services/httpd: parseCredentials, authenticate middleware, "
-                "the authorisation-relevant prefix of serveQuery and serveWrite (v1/v2); coordinator.StatementExecutor SHOW DATABASES / SHOW CONTINUOUS QUERIES filtering through httpd.userQueryAuthorizer and its executeGrant/Revoke/GrantAdmin/RevokeAdmin/SetPasswordUser/DropUser statements (exec_stmt). "
-                "Not modelled: the other statement handlers of coordinator.StatementExecutor, prom read/write, flux, pprof, "
+                "the authorisation-relevant prefix of serveQuery and serveWrite (v1/v2); coordinator.StatementExecutor SHOW DATABASES / SHOW CONTINUOUS QUERIES filtering through httpd.userQueryAuthorizer and its executeGrant/Revoke/GrantAdmin/RevokeAdmin/SetPasswordUser/DropUser statements (exec_stmt); "
+                "SHOW family: influxql Show*Statement.RequiredPrivileges + Sources.RequiredPrivileges, meta.showReadPrivileges, query.Executor default database, query/statement_rewriter.go rewriteSources/rewriteSources2 (database of each source), "
+                "coordinator NormalizeStatement/normalizeMeasurement (default + database-not-found), executeShowTagKeys/TagValues/Measurements (incl. ON *.* filter)/Series+MeasurementCardinality estimation: which databases are read (Reads.v). "
+                "Not modelled: the other statement handlers of coordinator.StatementExecutor (which databases SELECT/DELETE/DROP touch is only covered by the trusted influxql privileges), SHOW MEASUREMENTS ON db.*, prom read/write, flux, pprof, "
                 "ping auth, query execution, body parsing; concurrency only for Authenticate vs metadata swap",
     "assumptions": ["the cache's salted SHA-256 determines the password on the explored domain (premise salted_injective of the theorems)",
                     "bcrypt.CompareHashAndPassword(h, p) succeeds iff h was generated from p (explored passwords < 72 bytes)",
